@@ -780,18 +780,22 @@ async fn run_dir_history(plan: &Plan, models: &[ModelShard], rep: &mut RunReport
                         },
                         Ok(None) => {
                             rep.count("probe:manager_misses", 1);
-                            // C18.c (completeness through keyed shards): if a live keyed export with a chunk table in
-                            // this directory contains the first chunk exactly once, the unkeyed query must hit
-                            if focus == "C18" {
-                                for (ed, _k, fl, exp, srcm, _) in &exports {
-                                    if *ed as usize == d && fl & 4 != 0 && *exp >= now && !damaged_expectation[d] {
-                                        let occurrences: usize = srcm.xorbs.values().map(|x| x.chunks.iter().filter(|c| c.0 == q[0]).count()).sum();
-                                        let prefix_clash: usize = srcm.xorbs.values().map(|x| x.chunks.iter().filter(|c| c.0 != q[0] && trunc(&c.0) == trunc(&q[0])).count()).sum();
-                                        if occurrences == 1 && prefix_clash == 0 {
-                                            rep.count("probe:keyed_completeness_checked", 1);
-                                        }
-                                    }
+                            // C18.c (completeness through a manager holding shards under several keys): if a live keyed
+                            // export in this directory holds the first chunk, and no other chunk of a live export here
+                            // shares its plain truncated prefix, the unkeyed query must hit
+                            if focus == "C18" && !damaged_expectation[d] {
+                                let live: Vec<&ModelShard> = exports.iter().filter(|e| e.0 as usize == d && e.3 >= now).map(|e| &e.4).collect();
+                                let occurrences: usize = live.iter().map(|m| m.xorbs.values().map(|x| x.chunks.iter().filter(|c| c.0 == q[0]).count()).sum::<usize>()).sum();
+                                let clash: usize = live.iter().map(|m| m.xorbs.values().map(|x| x.chunks.iter().filter(|c| c.0 != q[0] && trunc(&c.0) == trunc(&q[0])).count()).sum::<usize>()).sum();
+                                if occurrences >= 1 && clash == 0 {
+                                    let keys: std::collections::BTreeSet<u8> = exports.iter().filter(|e| e.0 as usize == d && e.3 >= now).map(|e| e.1).collect();
+                                    rep.violate(
+                                        "C18.c",
+                                        "manager-miss-for-live-keyed-shard",
+                                        format!("op {oi} dir {d}: the first query chunk {} is held by a live keyed export registered in this manager ({} key(s) in the directory), yet the unkeyed query misses", ref_hex(&q[0]), keys.len()),
+                                    );
                                 }
+                                rep.count("probe:keyed_completeness_checked", (occurrences >= 1) as u64);
                             }
                         },
                         Err(e) => rep.violate("C05.a", "manager-query-error", format!("op {oi}: {e}")),
